@@ -414,6 +414,14 @@ Example C04_example_rebuild_with_plan_rerun :
   attached (KStep, ExR.u) (run_ops ExR.ops ExR.q) = false.
 Proof. exact ExR_example. Qed.
 
+(* The label ingredient of the input digest (1 = the label of the step, 2 = Run.description, its display form with
+   control characters escaped): the skip / validate check and the hash stored after a run use the step label.  With
+   different sources a step whose command contains a control character never passes its check (seeded/C04-r5; the
+   absorbed E3 family carries such labels). *)
+Theorem C04_skip_check_and_stored_hash_use_the_step_label :
+  gen_digest_label_source_check = 1 /\ gen_digest_label_source_stored = 1.
+Proof. exact digest_label_tie. Qed.
+
 (* startup.rescan_env_vars, translated statement by statement (the translator interprets the loop over the env_var
    rows for a row whose current value differs / does not differ, so `continue` on equality and an `if` on inequality
    give the same pair): a row of an attached step is collected for a rerun exactly when the value differs - the
